@@ -66,22 +66,33 @@ Definition alloc_accepts (raw : wreq) (orders : string -> list string) (n : pnod
   | Types.Ok (inr _) => true
   | _ => false
   end.
+
+(* the commit step: usage of the node after the planned count has been allocated
+   (Manager.Alloc = CalculateDeploy + SetNodeResourceUsage(workloads, delta, incr)) *)
+Definition node_after (raw : wreq) (orders : string -> list string) (n : pnode) (count : Z) : option node_info :=
+  match calculate_deploy_g sortf (snd n) base maxshare count raw (orders (fst n)) (default_fuel (snd n)) with
+  | Types.Ok (inr r) => Some (commit_usage (snd n) (snd r))
+  | _ => None
+  end.
 End Path.
 
 (* ======================================================================== *)
 (* Correspondence cases: Calcium.CalculateCapacity and Calcium.CreateWorkload *)
-(* on a real Calcium (embedded etcd, real cpumem plugin, fake engine)         *)
+(* on a real Calcium (embedded etcd, real cpumem plugin, optionally a second  *)
+(* scripted plugin, fake engine)                                              *)
 (* ======================================================================== *)
 Record pcase := mkPC {
   p_base : Z; p_maxshare : Z; p_raw : wreq;
   p_nodes : list pnode;                   (* candidate nodes with capacity and usage, read before the calls *)
+  p_extra : list famap;                   (* answers of additional (scripted) plugins, keys sorted *)
   p_status : plan;                        (* store.GetDeployStatus(app, entry) *)
   p_strat : strategy; p_need : Z; p_limit : Z;
-  p_reported : list (string * Z);         (* Manager.GetNodesDeployCapacity: node -> capacity *)
+  p_reported : list cap_entry;            (* Manager.GetNodesDeployCapacity: node -> capacity, usage, rate *)
   p_total : Z;                            (*   and its total *)
   p_obs_cap : result;                     (* CalculateCapacity: NodeCapacities or error class *)
   p_obs_create : result;                  (* CreateWorkload: instances created per node or error class *)
-  p_create_failed : Z                     (* number of instance messages carrying an error *)
+  p_create_failed : Z;                    (* number of instance messages carrying an error *)
+  p_after : list (string * node_resource) (* usage of every node after the create *)
 }.
 
 Definition no_numa (_ : string) : list string := [].
@@ -96,8 +107,12 @@ Definition path_caps (c : pcase) : option (list (string * capinfo)) :=
     end
   end.
 
-Definition cap_list_eqb (a b : list (string * Z)) : bool :=
-  list_eqb (fun x y => String.eqb (fst x) (fst y) && Z.eqb (snd x) (snd y)) a b.
+Definition cpumem_answer (caps : list (string * capinfo)) : famap :=
+  map (fun nc => (fst nc, ndc_of_cap (snd nc))) (plugin_offered caps).
+
+Definition entry_eqb (a b : cap_entry) : bool :=
+  String.eqb (ce_name a) (ce_name b) && Z.eqb (ce_cap a) (ce_cap b) &&
+  f_obs_eqb (ce_usage a) (ce_usage b) && f_obs_eqb (ce_rate a) (ce_rate b).
 
 Definition drop_zero_entries (r : result) : result :=
   match r with
@@ -105,46 +120,80 @@ Definition drop_zero_entries (r : result) : result :=
   | _ => r
   end.
 
-(* the observed plan is the model's for some iteration order of the merged map;
-   the manager's answer is the model's *)
+Definition nr_eqb (a b : node_resource) : bool :=
+  fbits_eqb (nr_cpu a) (nr_cpu b) && smap_eqb Z.eqb (nr_cpumap a) (nr_cpumap b) &&
+  Z.eqb (nr_mem a) (nr_mem b) && smap_eqb Z.eqb (nr_numamem a) (nr_numamem b).
+
+(* expected usage of node [n] after [count] instances were allocated on it *)
+Definition usage_after (c : pcase) (n : pnode) (count : Z) : option node_resource :=
+  if count <=? 0 then Some (ni_usage (snd n)) else
+  option_map ni_usage (node_after sort_exact (p_base c) (p_maxshare c) (p_raw c) no_numa n count).
+
+(* the manager's answer is the model's for some order of the plugin answers; both
+   observed plans are the model's for some iteration order of the merged map; the
+   usage of every node after the create is the committed usage of the model *)
 Definition pagree (c : pcase) : bool :=
   match path_caps c with
   | None =>
       (* invalid request: both calls fail before any strategy runs *)
       match p_obs_cap c, p_obs_create c with Model.Ok _, _ | _, Model.Ok _ => false | _, _ => true end
   | Some caps =>
-      let mt := manager_capacity caps in
-      let entries := entries_of (sort_keys (fst mt)) in
-      cap_list_eqb (map (fun e => (ce_name e, ce_cap e)) entries) (p_reported c) &&
-      Z.eqb (snd mt) (p_total c) &&
-      let results := map (fun order => glue (p_strat c) (p_need c) (p_limit c) order (p_status c) (snd mt))
-                         (perms entries) in
-      existsb (fun r => res_eqb r (p_obs_cap c)) results &&
-      (* a node planned with 0 new instances (FILL) produces no create message *)
-      existsb (fun r => res_eqb (drop_zero_entries r) (p_obs_create c)) results
+      existsb (fun answers =>
+        let mt := gndc_f answers in
+        let entries := entries_of (sort_keys (fst mt)) in
+        list_eqb entry_eqb entries (p_reported c) &&
+        Z.eqb (snd mt) (p_total c) &&
+        let results := map (fun order => glue (p_strat c) (p_need c) (p_limit c) order (p_status c) (snd mt))
+                           (perms entries) in
+        existsb (fun r => res_eqb r (p_obs_cap c)) results &&
+        (* a node planned with 0 new instances (FILL) produces no create message *)
+        existsb (fun r => res_eqb (drop_zero_entries r) (p_obs_create c)) results)
+        (perms (cpumem_answer caps :: p_extra c)) &&
+      (* commit step *)
+      let created := match p_obs_create c with Model.Ok q => q | _ => [] end in
+      forallb (fun n =>
+        match usage_after c n (mget created (fst n)),
+              find (fun a => String.eqb (fst a) (fst n)) (p_after c) with
+        | Some u, Some a => nr_eqb u (snd a)
+        | _, _ => false
+        end) (p_nodes c)
   end.
 
 (* boolean reflection of the path properties on what the implementation did *)
-Definition plan_within (reported : list (string * Z)) (p : plan) : bool :=
-  forallb (fun kv => existsb (fun r => String.eqb (fst r) (fst kv) && (snd kv <=? snd r) && (0 <=? snd kv)) reported) p.
+Definition plan_within (reported : list cap_entry) (p : plan) : bool :=
+  forallb (fun kv => existsb (fun r => String.eqb (ce_name r) (fst kv) && (snd kv <=? ce_cap r) && (0 <=? snd kv)) reported) p.
 
 Definition pok (c : pcase) : bool :=
   (* (a) the total handed to the strategy is the saturating sum of the offered capacities *)
-  Z.eqb (p_total c) (Model.satsum (map snd (p_reported c))) &&
+  Z.eqb (p_total c) (Model.satsum (map ce_cap (p_reported c))) &&
   (* (b)+(c) every planned count is within the capacity reported for an offered node ... *)
   (match p_obs_cap c with Model.Ok p => plan_within (p_reported c) p | _ => true end) &&
   (match p_obs_create c with Model.Ok p => plan_within (p_reported c) p | _ => true end) &&
   (* ... and every planned allocation was accepted *)
   Z.eqb (p_create_failed c) 0 &&
-  (* only nodes with positive capacity are offered *)
-  forallb (fun r => 0 <? snd r) (p_reported c) &&
+  (* cpumem alone offers only nodes with positive capacity *)
+  (match p_extra c with [] => forallb (fun r => 0 <? ce_cap r) (p_reported c) | _ => true end) &&
+  (* every offered node is offered by every additional plugin, within its capacity *)
+  forallb (fun r => forallb (fun a => match Merge.lookup (ce_name r) a with
+                                       | Some i => ce_cap r <=? n_cap i
+                                       | None => false end) (p_extra c)) (p_reported c) &&
   (* the model's Alloc accepts the planned counts on the unchanged nodes *)
-  match p_obs_cap c with
-  | Model.Ok p => forallb (fun kv =>
+  (match p_obs_cap c with
+   | Model.Ok p => forallb (fun kv =>
               (snd kv <? 1) ||
               match find (fun n => String.eqb (fst n) (fst kv)) (p_nodes c) with
               | Some n => alloc_accepts sort_exact (p_base c) (p_maxshare c) (p_raw c) no_numa n (snd kv)
               | None => false
               end) p
-  | _ => true
+   | _ => true
+   end) &&
+  (* (d) commit: memory usage after the create = usage before + created * memory request *)
+  match wreq_validate (p_raw c), p_obs_create c with
+  | inr req, Model.Ok q =>
+      forallb (fun n =>
+        match find (fun a => String.eqb (fst a) (fst n)) (p_after c) with
+        | Some a => nr_mem (snd a) =? nr_mem (ni_usage (snd n)) + mget q (fst n) * rq_mem_req req
+        | None => false
+        end) (p_nodes c)
+  | _, _ => true
   end.
